@@ -128,43 +128,53 @@ def run_case(case) -> Result:
     vseed, vcls = rng.getrandbits(32), (rng.choice(["init", "normal"]) if not mono else rng.choice(["init", "posonly"]))
     tol = "fft" if "p:PolynomialProduct" in res.features else "exact"
     for fold, opt in flags:
-        tag = C.flag_name(fold, opt)
         comp = C.new_compiler(sr, fold, opt)
-        ccj = C.compile_in(res, comp, cj, f"conjugate(c) [{tag}]")
-        ccjj = C.compile_in(res, comp, cjj, f"conjugate(conjugate(c)) [{tag}]")
+        tag0 = C.flag_name(fold, opt)
+        ccj = C.compile_in(res, comp, cj, f"conjugate(c) [{tag0}]")
+        ccjj = C.compile_in(res, comp, cjj, f"conjugate(conjugate(c)) [{tag0}]")
         if ccj is None or ccjj is None:
             continue
-        if vcls != "init":
-            tie.revalue(comp, c, np.random.default_rng(vseed), vcls)
-        if sr == "lse-sum" and not all(C.monotone_ok(x, comp) for x in tie.pipeline_circuits(c)):
-            continue
-        r, a = C.reference(c, comp, pool)
-        if not np.all(np.isfinite(a)):
-            continue
-        if pool is None:
-            r, a = r[0], a[0]
-        C.check_expected(res, ccj, pool, np.conj(r), a, sr, f"{tag} {vcls} conjugate(c)", tol, vclass="conjugate-mismatch")
-        C.check_expected(res, ccjj, pool, r, a, sr, f"{tag} {vcls} conjugate(conjugate(c))", tol, vclass="double-conjugate-mismatch")
-        if real:
-            cc0 = comp.get_compiled_circuit(c)
-            g0, g1 = to_linear(C.evaluate(cc0, pool), sr), to_linear(C.evaluate(ccj, pool), sr)
-            ok, idx, msg = close_lin(g1, g0, a, tol)
-            res.count("values_compared", int(g0.size))
-            if not ok:
-                res.violate("real-conjugate-differs-from-operand", f"[{tag} {vcls}] conjugate(c) != c on a real-parameter circuit at {idx}: {msg}")
-        if integ is not None:
-            ci, cji = integ
-            a_ = C.compile_in(res, comp, ci, f"integrate(c) [{tag}]")
-            b_ = C.compile_in(res, comp, cji, f"integrate(conjugate(c)) [{tag}]")
-            if a_ is not None and b_ is not None:
-                ya, yb = call(C.evaluate, a_, None), call(C.evaluate, b_, None)
-                if ya.ok and yb.ok:
-                    za, zb = to_linear(ya.value, sr), to_linear(yb.value, sr)
-                    ri, ai = C.reference(ci, comp, None)
-                    ok, idx, msg = close_lin(zb, np.conj(za), ai[0], tol)
-                    res.count("values_compared", int(za.size))
-                    if not ok:
-                        res.violate("integral-relation", f"[{tag} {vcls}] integral of conjugate(c) != conj(integral of c) at {idx}: {msg}")
-                elif not yb.ok:
-                    exc_violation(res, yb, f"evaluating integrate(conjugate(c)) [{tag}]")
+        for rnd in range(2):
+            # the second round re-uses the same compiled objects after an in-place update
+            tag = tag0 + (" round2" if rnd else "")
+            if rnd:
+                tie.revalue(comp, c, np.random.default_rng(vseed + 31), "posonly" if mono else "normal")
+                res.features.add("second-round")
+            elif vcls != "init":
+                tie.revalue(comp, c, np.random.default_rng(vseed), vcls)
+            if sr == "lse-sum" and not all(C.monotone_ok(x, comp) for x in tie.pipeline_circuits(c)):
+                continue
+            one_round(res, comp, c, cj, ccj, ccjj, integ, pool, sr, tag, vcls, tol, real)
     return res
+
+
+def one_round(res, comp, c, cj, ccj, ccjj, integ, pool, sr, tag, vcls, tol, real):
+    r, a = C.reference(c, comp, pool)
+    if not np.all(np.isfinite(a)):
+        return
+    if pool is None:
+        r, a = r[0], a[0]
+    C.check_expected(res, ccj, pool, np.conj(r), a, sr, f"{tag} {vcls} conjugate(c)", tol, vclass="conjugate-mismatch")
+    C.check_expected(res, ccjj, pool, r, a, sr, f"{tag} {vcls} conjugate(conjugate(c))", tol, vclass="double-conjugate-mismatch")
+    if real:
+        cc0 = comp.get_compiled_circuit(c)
+        g0, g1 = to_linear(C.evaluate(cc0, pool), sr), to_linear(C.evaluate(ccj, pool), sr)
+        ok, idx, msg = close_lin(g1, g0, a, tol)
+        res.count("values_compared", int(g0.size))
+        if not ok:
+            res.violate("real-conjugate-differs-from-operand", f"[{tag} {vcls}] conjugate(c) != c on a real-parameter circuit at {idx}: {msg}")
+    if integ is not None:
+        ci, cji = integ
+        a_ = C.compile_in(res, comp, ci, f"integrate(c) [{tag}]")
+        b_ = C.compile_in(res, comp, cji, f"integrate(conjugate(c)) [{tag}]")
+        if a_ is not None and b_ is not None:
+            ya, yb = call(C.evaluate, a_, None), call(C.evaluate, b_, None)
+            if ya.ok and yb.ok:
+                za, zb = to_linear(ya.value, sr), to_linear(yb.value, sr)
+                ri, ai = C.reference(ci, comp, None)
+                ok, idx, msg = close_lin(zb, np.conj(za), ai[0], tol)
+                res.count("values_compared", int(za.size))
+                if not ok:
+                    res.violate("integral-relation", f"[{tag} {vcls}] integral of conjugate(c) != conj(integral of c) at {idx}: {msg}")
+            elif not yb.ok:
+                exc_violation(res, yb, f"evaluating integrate(conjugate(c)) [{tag}]")
